@@ -698,22 +698,28 @@ def r6(F, R):
     pend = [p for p in rows if res(p) == "Pending"]
     ready = [p for p in rows if res(p) == "Ready"]
     R.check(len(pend) >= 1 and len(ready) >= 1 and len(pend) + len(ready) == len(rows), "yieldnow/both-results", b, "", "YieldNow::poll lacks a Pending or a Ready path")
+    # the flag's polarity is the code's business: `fresh` is the value every constructor stores, `done` the other one
+    ctors = roles.builders_of(F, "future::YieldNow", "YieldNow")
+    vals = sorted({const_int(st["rv"]["ops"][0]) for _, _, st in ctors})
+    R.check(len(vals) == 1 and vals[0] in (0, 1), "yieldnow/starts-unyielded", ctors[0][0] if ctors else None,
+            "every YieldNow is created with the same flag value", f"a YieldNow is created with flag values {vals}")
+    if len(vals) != 1 or vals[0] not in (0, 1):
+        return
+    fresh, done = bool(vals[0]), not bool(vals[0])
     for p in pend:
         R.check(any(e[0] == "call" and re.search(r"Waker::wake(_by_ref)?$", e[1]) for e in p.effects), "yieldnow/pending-after-wake", b,
                 "Pending is returned only after wake_by_ref", "YieldNow returns Pending without waking the task first (lost wake-up: the run hangs)")
-        R.check(any(e[0] == "write" and is_flag_place(e[1]) and e[2] == ("const", True) for e in p.effects), "yieldnow/pending-sets-flag", b,
-                "Pending path sets the flag", "YieldNow returns Pending without setting its flag (it would never become Ready)")
+        R.check(any(e[0] == "write" and is_flag_place(e[1]) and e[2] == ("const", done) for e in p.effects), "yieldnow/pending-sets-flag", b,
+                "Pending path flips the flag", "YieldNow returns Pending without flipping its flag (it would never become Ready)")
+        R.check(flag_of(p) is fresh, "yieldnow/pending-only-when-fresh", b, "Pending only in the state the constructor creates",
+                "YieldNow returns Pending in the state it reaches after having yielded (it never completes)")
     for p in ready:
-        R.check(flag_of(p) is True, "yieldnow/ready-only-when-flag", b, "Ready only on the flag's true edge",
-                "YieldNow returns Ready although its flag is not set (then_yield would no longer yield)")
+        R.check(flag_of(p) is done, "yieldnow/ready-only-when-flag", b, "Ready only after the flag was flipped",
+                "YieldNow returns Ready in the state its constructor creates: a fresh yield_now() completes at once and never yields "
+                "(the idle branch of the runner spins inside one poll, the parser is starved)")
     for p in rows:
-        if flag_of(p) is True:
+        if flag_of(p) is done:
             R.check(res(p) == "Ready", "yieldnow/ready-when-flag", b, "a yielded YieldNow completes", "YieldNow stays Pending after it has yielded (the run hangs)")
-    # constructor starts with false
-    ctors = roles.builders_of(F, "future::YieldNow", "YieldNow")
-    vals = [const_int(st["rv"]["ops"][0]) for _, _, st in ctors]
-    R.check(bool(ctors) and all(v == 0 for v in vals), "yieldnow/starts-unyielded", ctors[0][0] if ctors else None,
-            "every YieldNow is created with flag=false", f"a YieldNow is created with flag values {vals}")
     # YieldThenReturn polls the yield first and returns Pending when it pends
     # on YieldThenReturn::poll's path table
     b = ytr[0]
